@@ -42,6 +42,22 @@ pub fn check_prefixes(e: &Entry, v: &Val, g: &mut Gen, stats: &mut Stats) -> Res
 		let r2 = guard(|| (e.decode_dyn.unwrap())(&mut li)).map_err(|p| {
 			Violation::new(format!("C14/panic/decode/{}", e.ty.family()), format!("type {}: prefix decode panicked: {p}", e.name))
 		})?;
+		// ... and through the std::io::Read adapter
+		let r3 = guard(|| (e.decode_io.unwrap())(prefix, &[])).map_err(|p| {
+			Violation::new(format!("C14/panic/decode/{}", e.ty.family()), format!("type {}: prefix decode panicked: {p}", e.name))
+		})?;
+		if r3.0.is_ok() {
+			return Err(Violation::new(
+				format!("C14/prefix-accepted-ioreader/{}", e.ty.family()),
+				format!(
+					"type {}: the strict prefix of length {k} of a {}-byte encoding decodes successfully through IoReader\nencoding {}\nvalue {}",
+					e.name,
+					bytes.len(),
+					hex(&bytes),
+					v.brief(200)
+				),
+			));
+		}
 		if r.0.is_ok() || r2.is_ok() {
 			return Err(Violation::new(
 				format!("C14/prefix-accepted/{}", e.ty.family()),
@@ -216,7 +232,7 @@ pub fn run(ctx: &Ctx) -> (Level, Report) {
 		Level {
 			level: "exploration",
 			rule: "three relations over generated cases: (1) zoo value x every cut point k < len (all cuts up to 300 bytes, 60 sampled cuts incl. chunk \
-boundaries beyond) must fail over slice and unknown-length inputs; (2) 2..40 values of mixed zoo types concatenated decode value by value to the \
+boundaries beyond) must fail over slice, unknown-length and IoReader inputs; (2) 2..40 values of mixed zoo types concatenated decode value by value to the \
 same values and end empty; (3) for byte strings from the C03 families, decode_all(s) is Ok(x) iff decode(s) is Ok(x) with nothing left, and the \
 same for decode_all_with_depth_limit against decode_with_depth_limit at limits u32::MAX and 0..8. Non-trivial = encoding >= 3 bytes / >= 3 type \
 families in the sequence / decode succeeds with leftover bytes.",
